@@ -17,6 +17,8 @@ def run(ctx):
     recs, g, d, _ = ctx.gen("FaultCases.tla", "GEN_FaultCases.cfg")
     ctx.states += d
     ctx.transitions += g
+    fields = [r["hostileFields"] for r in recs if "hostileFields" in r]
+    recs = [r for r in recs if "hostileFields" not in r]
     out = ctx.run_vh(binp, ["c12"] + ([] if q else ["--arg", "full=1"]), cases=recs, timeout=3000)
     out, crashed = ctx.nocrash(out, "C12:crash")
     for r in out:
@@ -31,7 +33,9 @@ def run(ctx):
         else:
             ctx.traces_ok += 1
     ctx.sample({"fault_case": recs[len(recs) // 2], "result": out[len(out) // 2] if out else None})
-    out = ctx.run_vh(binp, ["c12-hostile", "--arg", "n=%d" % (300 if q else 5000)], timeout=3000)
+    if not fields or len(fields[0]) < 10:
+        raise vlib.Infra("FaultCases printed no HostileFields")
+    out = ctx.run_vh(binp, ["c12-hostile", "--arg", "n=%d" % (300 if q else 5000), "--arg", "fields=" + ",".join(fields[0])], timeout=3000)
     out, crashed = ctx.nocrash(out, "C12:crash:hostile-input")
     for r in out:
         ctx.evaluations += r.get("streams", 0)
